@@ -505,6 +505,7 @@ def run(chk):
     _structfill_rule(chk, prog)
     _hashlast_rule(chk, prog)
     _eqlen_rule(chk, prog)
+    _memeqlen_rule(chk, prog)
 
 
 def _hashlast_rule(chk, prog):
@@ -604,3 +605,55 @@ def _eqlen_rule(chk, prog):
             chk.violation(rule, "value.c", "janet_equals", "length:%s" % kind, x.loc,
                           "`%s` is reached on a path that has not compared the two lengths: the pairwise walk ends at the shorter "
                           "value and a %s equals any longer one that starts with it (given equal stored hashes)" % (x.text()[:60], kind))
+
+
+def _memeqlen_rule(chk, prog):
+    """`memcmp(a, b, n) == 0` says `equal` only about the first n bytes.  Where it decides equality (string equality
+    behind =, table and struct lookup and the symbol cache; prefix / suffix tests; PEG literals) the count must have
+    been related to the length of the other operand on the path - otherwise a string equals every longer string that
+    starts with it and shares its 32-bit hash, and = stops being symmetric."""
+    rule = "C03-MEMEQLEN"
+    chk.rule(rule, "an equality decided by memcmp(a, b, n) is reached only on paths that compared n with the other operand's length")
+    n = 0
+    for tun in ("string.c", "peg.c", "value.c", "symcache.c", "buffer.c", "struct.c", "table.c"):
+        tu = prog.tus.get(tun)
+        if tu is None:
+            continue
+        for fn in tu.funcs.values():
+            sites = []
+            for c in fn.calls("memcmp"):
+                p = c.parent
+                while p is not None and p.k in ("cast", "paren"):
+                    p = p.parent
+                eq = p is not None and ((p.k == "un" and p.op == "!") or (p.k == "bin" and p.op in ("==", "!=")) or
+                                        (p.k in ("cond", "if") and strip_casts(p.kids[0]) is c))
+                if eq and len(c.args) == 3:
+                    sites.append(c)
+            if not sites:
+                continue
+            chk.analysed(fn)
+            IN, T = flow.condition_facts(fn)
+            res = {}
+            for x, S in flow.states_at(fn, IN, T):
+                for c in sites:
+                    if x is c:
+                        ln_ = strip_casts(c.args[2])
+                        names = set(r.name for r in ln_.walk() if r.k == "ref")
+                        txt = ln_.text()
+                        def related(ps):
+                            for (op, l, r, toks, a, b) in ps:
+                                if op in ("==", "<=", ">=", "<", ">") and r and ((names and names <= set(toks) and (txt in l or txt in r)) ):
+                                    return True
+                            return False
+                        res[id(c)] = bool(S) and all(related(ps) for ps in S)
+            for c in sites:
+                n += 1
+                chk.instance(rule)
+                if res.get(id(c)):
+                    chk.ok(rule, "%s: `%s` after the count was compared with the other length" % (fn.name, c.text()[:50]))
+                else:
+                    chk.violation(rule, tun, fn.name, "memcmp:" + strip_casts(c.args[2]).text().replace(" ", ""), c.loc,
+                                  "`%s` decides equality but `%s` was not compared with the other operand's length on every path to it: "
+                                  "a value equals any longer one that starts with it (for hashed strings: given equal 32-bit hashes), "
+                                  "and the comparison is not symmetric" % (c.text()[:60], strip_casts(c.args[2]).text()))
+    chk.floor(rule, 4, n)
